@@ -283,6 +283,45 @@ void rfbScaledScreenUpdate(rfbScreenInfoPtr screen, int x1, int y1, int x2, int 
     }
 }
 
+/* The framebuffer was replaced (rfbNewFramebuffer): every scaled version keeps its
+ * reduction relative to the old size and gets the new pixel format, a buffer of the
+ * matching size and the new contents.  Clients keep pointing at the same structure. */
+void rfbScaledScreensNewFramebuffer(rfbScreenInfoPtr screen, int oldWidth, int oldHeight)
+{
+    rfbScreenInfoPtr ptr;
+
+    for (ptr=screen->scaledScreenNext;ptr!=NULL;ptr=ptr->scaledScreenNext)
+    {
+        char *fb;
+        int width = (int)(((int64_t)ptr->width * (int64_t)screen->width) / (int64_t)oldWidth);
+        int height = (int)(((int64_t)ptr->height * (int64_t)screen->height) / (int64_t)oldHeight);
+
+        if (width < 1) width = 1;
+        if (height < 1) height = 1;
+        ptr->width = width;
+        ptr->height = height;
+        ptr->bitsPerPixel = screen->bitsPerPixel;
+        ptr->depth = screen->depth;
+        ptr->serverFormat = screen->serverFormat;
+        ptr->colourMap = screen->colourMap;
+        ptr->paddedWidthInBytes = pad4((ptr->bitsPerPixel/8)*ptr->width);
+        ptr->sizeInBytes = ptr->paddedWidthInBytes * ptr->height;
+        fb = realloc(ptr->frameBuffer, ptr->sizeInBytes);
+        if (fb!=NULL)
+            ptr->frameBuffer = fb;
+        else
+        {
+            /* the old block holds at least one pixel of any format */
+            rfbErr("rfbScaledScreensNewFramebuffer: out of memory, %dx%d reduced to 1x1\n", width, height);
+            ptr->width = ptr->height = 1;
+            ptr->paddedWidthInBytes = ptr->sizeInBytes = 4;
+        }
+        /* unreferenced versions are rendered when a client picks them up (rfbScalingSetup) */
+        if (ptr->scaledScreenRefCount>0)
+            rfbScaledScreenUpdateRect(screen, ptr, 0, 0, screen->width, screen->height);
+    }
+}
+
 /* Create a new scaled version of the framebuffer */
 rfbScreenInfoPtr rfbScaledScreenAllocate(rfbClientPtr cl, int width, int height)
 {
